@@ -3,7 +3,7 @@ usage: python -m mc.seedbatch C05 C08 ...        (each worktree /tmp/wt_cNN with
 """
 import json, os, shutil, subprocess, sys
 V = os.path.dirname(os.path.dirname(os.path.abspath(__file__)))
-ROUND = os.environ.get("SEED_ROUND", "")          # "" = round 1 (/tmp/wt_cNN), "2" = round 2 (/tmp/wt2_cNN)
+ROUND = os.environ.get("SEED_ROUND", "")          # "" = round 1 (/tmp/wt_cNN), "2"/"3" = later rounds (/tmp/wt2_cNN, ...)
 for pid in [a for a in sys.argv[1:] if not a.startswith("--")]:
     wt = f"/tmp/wt{ROUND}_c{pid[1:]}"
     for x in "AB":
@@ -12,7 +12,10 @@ for pid in [a for a in sys.argv[1:] if not a.startswith("--")]:
             print(pid, x, "missing"); continue
         d = f"{V}/seeded/{pid}_{x}" if not ROUND else f"{V}/seeded/{pid}_r{ROUND}{x}"
         os.makedirs(d, exist_ok=True)
-        shutil.copy(patch, f"{d}/patch.diff"); shutil.copy(demo, f"{d}/demo.py")
+        if not os.path.exists(f"{d}/patch.diff"):      # a patch already collected may have been re-based by hand
+            shutil.copy(patch, f"{d}/patch.diff")
+        if not os.path.exists(f"{d}/demo.py"):
+            shutil.copy(demo, f"{d}/demo.py")
         if os.path.exists(f"{d}/run.json") and "--force" not in sys.argv:
             print(pid, x, "already run"); continue
         r = subprocess.run([sys.executable, "-m", "mc.seedrun", f"{d}/patch.diff", f"{d}/demo.py", pid, "--seeds", "0,1"],
